@@ -56,6 +56,10 @@ type errCall struct {
 	err    error
 }
 
+func (e errCall) String() string {
+	return fmt.Sprintf("(status %d, code %d, err-nil=%v)", e.status, e.code, e.err == nil)
+}
+
 // authOutcome decides whether the callback accepts, and whether it reads.
 func authFunc(mode string, party *string, log *simfw.Log, calls *int, sawFull *[]int, want func() int) openapi3filter.AuthenticationFunc {
 	return func(ctx context.Context, in *openapi3filter.AuthenticationInput) error {
@@ -419,7 +423,7 @@ func (Sim) Run(raw json.RawMessage, prop string, keep bool) (res simfw.Result) {
 						wantCode = int(openapi3filter.ErrCodeRequestInvalid)
 					}
 					if len(errCalls) != 1 || errCalls[0].status != wantStatus || errCalls[0].code != wantCode || errCalls[0].err == nil {
-						res.Violate(Prop, "self-answer", sig("errfunc-"+expect), fmt.Sprintf("req #%d: ErrFunc calls=%+v, want exactly one (%d, code %d, non-nil error)", i, errCalls, wantStatus, wantCode))
+						res.Violate(Prop, "self-answer", sig("errfunc-"+expect), fmt.Sprintf("req #%d: ErrFunc calls=%v, want exactly one (%d, code %d, non-nil error)", i, errCalls, wantStatus, wantCode))
 					}
 				}
 				if s.ErrFunc == "default" || s.ErrFunc == "record" {
@@ -495,7 +499,7 @@ func (Sim) Run(raw json.RawMessage, prop string, keep bool) (res simfw.Result) {
 				res.Violate(Prop, "strict-valid", sig("strict-valid-altered"), fmt.Sprintf("req #%d: valid handler response (status %d, body %q) reached the client as (status %d, body %q)", i, want.Status, want.Body, got.Status, got.Body))
 			}
 			if len(errCalls) != 0 {
-				res.Violate(Prop, "strict-valid", sig("errfunc-on-valid"), fmt.Sprintf("req #%d: ErrFunc called for a valid response: %+v", i, errCalls))
+				res.Violate(Prop, "strict-valid", sig("errfunc-on-valid"), fmt.Sprintf("req #%d: ErrFunc called for a valid response: %v", i, errCalls))
 			}
 			res.Probe("strict-pass")
 		} else {
@@ -505,7 +509,7 @@ func (Sim) Run(raw json.RawMessage, prop string, keep bool) (res simfw.Result) {
 			}
 			if s.ErrFunc != "default" {
 				if len(errCalls) != 1 || errCalls[0].status != 500 || errCalls[0].code != int(openapi3filter.ErrCodeResponseInvalid) || errCalls[0].err == nil {
-					res.Violate(Prop, "strict-invalid", sig("errfunc-500"), fmt.Sprintf("req #%d: ErrFunc calls=%+v, want exactly one (500, response-invalid)", i, errCalls))
+					res.Violate(Prop, "strict-invalid", sig("errfunc-500"), fmt.Sprintf("req #%d: ErrFunc calls=%v, want exactly one (500, response-invalid)", i, errCalls))
 				}
 			}
 			if s.ErrFunc == "default" || s.ErrFunc == "record" {
